@@ -298,6 +298,39 @@ def run(ck, facts, tier):
             ck.violation(R, inst, b.where(), "the filter is applied %d time(s), %d of them against the goal being solved" % (len(cms), len(good)))
     ck.floor(R, "could_match-call-sites", n, 3)
     sole_filter(ck, facts)
+    impl_values_unconditional(ck, facts, "C18.IMPL-VALUES-UNCONDITIONAL")
+
+
+def impl_values_unconditional(ck, facts, R):
+    ck.rule(R, "K3 (control dependence): for a Normalize goal on a projection, program_clauses_that_could_match looks through the impls "
+               "of the trait for associated type values (push_program_clauses_for_associated_type_values_in_impls_of, which asks "
+               "impls_for_trait / could_match) UNCONDITIONALLY once the early exits for inference variables and non-enumerable traits "
+               "are behind it: no test on the kind of the self type stands in front of the call.  An impl header like `Vec<u32>` does "
+               "unify with an alias self type `<S as Foo>::A` (through an AliasEq subgoal) and could_match says so; a second pre-filter "
+               "in front of the call discards every impl-derived clause and Unique becomes No possible solution")
+    key = "chalk_solve::clauses::program_clauses_that_could_match"
+    b = need_body(ck, facts, R, key)
+    if not b:
+        return
+    from kit import conditions_above
+    th = facts.thir(key)
+    FN = "push_program_clauses_for_associated_type_values_in_impls_of"
+    n = 0
+    for m in enum_matches(th, "chalk_ir::AliasTy"):
+        arms = select_arms(m, V("Projection"))
+        if not arms:
+            continue
+        body_ = m["arms"][arms[0][0]]["body"]
+        for c in calls(body_, FN):
+            n += 1
+            above = conditions_above(body_, c)
+            if above:
+                ck.violation(R, "Normalize:impl-values-looked-up-for-every-self-type", b.where(c.get("ln")),
+                             "the look-up of associated type values in impls depends on a test (%s) that is not could_match" %
+                             str(above[-1].get("k")))
+            else:
+                ck.ok(R, "Normalize:impl-values-looked-up-for-every-self-type")
+    ck.floor(R, "look-ups-in-the-Normalize-arm", n, 1)
 
 
 def sole_filter(ck, facts):
